@@ -369,10 +369,12 @@ PLAN = {
                       "the real crate and judged by TLC against Vec::drain / Vec::splice semantics.",
                 rule="cases = all transitions of the bounded range model; non-trivial = a range operation instance at depth >= 2; "
                      "distinct = distinct (action, configuration, profile) triples"),
-    "C14": dict(campaigns=c14, level="model_checking",
+    "C14": dict(campaigns=c14, extra=probes.run_c14_extra, level="model_checking",
                 claim="Every next/next_back step (and clone of shared iterators) from every cursor state of iter, iter_mut, typed iterators, "
                       "drain and splice inside the bound is replayed and its size_hint/len and yielded element judged by TLC; "
-                      "calls after exhaustion are the self-loop transitions of the model.",
+                      "calls after exhaustion are the self-loop transitions of the model. In addition Apalache discharges, for ranges of ANY "
+                      "length, that the cursor invariant of IterCursor.tla (exact size hint, ascending front / descending back positions, no "
+                      "element from both ends, fused) is inductive - a design-level, unbounded argument reported in the evidence.",
                 rule="cases = all transitions of the iterator and range models; non-trivial = an iterator step at depth >= 2; "
                      "distinct = distinct (action, configuration, profile) triples"),
     "C01": dict(campaigns=c01, level="model_checking",
